@@ -267,6 +267,11 @@ def rule_options_view(ctx, ts, px):
 def rule_include_scope(ctx, px):
     S = "R-C17-SCOPE"
     f = px.func("nunavut.lang._common", "IncludeGenerator.generate_include_filepart_list")
+    if f.cls is not None:
+        import copy as _copy
+        f_ = _copy.copy(f)
+        f_.node = pyfront.inline_value_calls(f.node, {k_: m_.node for k_, m_ in f.cls.methods.items()})
+        f = f_
     found = False
     def mentions_support(e):
         """the expression enumerates the serialization support files - directly or through a helper method of the class"""
@@ -286,6 +291,14 @@ def rule_include_scope(ctx, px):
         if adds:
             found = True
             terms = pyfront.guard_terms(gd)
+            # `xs += [] if self._omit_serialization_support else [<support headers>]`: the conditional expression is the guard
+            v_ = st.value if isinstance(st, ast.AugAssign) else (st.value.args[0] if isinstance(st, ast.Expr) and st.value.args else None)
+            if isinstance(v_, ast.IfExp) and not terms:
+                empty_ = lambda e_: isinstance(e_, (ast.List, ast.Tuple)) and not e_.elts      # noqa: E731
+                if empty_(v_.body) and mentions_support(v_.orelse):
+                    terms = pyfront.guard_terms([(v_.test, False)])
+                elif empty_(v_.orelse) and mentions_support(v_.body):
+                    terms = pyfront.guard_terms([(v_.test, True)])
             ok = terms == [("self._omit_serialization_support", False)]
             ctx.ob(S, f.module.rel, f"{f.short} :: support header included exactly when serialization support is not omitted", ok,
                    "" if ok else f"guards: {terms}", st.lineno)
